@@ -1,0 +1,27 @@
+//go:build verif
+
+package vm
+
+import (
+	"github.com/paulsonkoly/calc/memory"
+	"github.com/paulsonkoly/calc/types/bytecode"
+	"github.com/paulsonkoly/calc/types/value"
+)
+
+// VerifState exposes the main context for verification harnesses: the saved
+// instruction pointer, the number of registered child contexts and the main
+// memory's stack sizes.
+func (vm *Type) VerifState() (ip, liveContexts, sp, frames, closures, stackLen int) {
+	sp, frames, closures, stackLen = vm.main.m.VerifState()
+	return vm.main.ip, vm.main.children.Len(), sp, frames, closures, stackLen
+}
+
+// VerifStep, when set, is called before every instruction is executed.
+var VerifStep func(ip int, instr bytecode.Type, sp, frames, closures int, tmp value.Type)
+
+func verifStep(ip int, instr bytecode.Type, m *memory.Type, tmp value.Type) {
+	if VerifStep != nil {
+		sp, frames, closures, _ := m.VerifState()
+		VerifStep(ip, instr, sp, frames, closures, tmp)
+	}
+}
